@@ -100,7 +100,15 @@ func c13E2E(a lib.Args, res *lib.Result) error {
 		}
 		rsp := gw.Do(g.Addr(), req)
 		if rsp.Err != nil {
-			return fmt.Errorf("GET %q: %v", hdr, rsp.Err)
+			// no complete HTTP answer (connection dropped, body shorter than its Content-Length): the
+			// property demands a well-formed answer whose body matches its headers
+			res.Fail(lib.Failure{Kind: "property", Signature: "GetObject-range:" + c13Class(hdr, size) + ":incomplete-answer",
+				What:  fmt.Sprintf("GET did not return a complete HTTP answer: %v (status %d, %d body bytes, Content-Length %q, Content-Range %q)", rsp.Err, rsp.Status, len(rsp.Body), rsp.Headers.Get("Content-Length"), rsp.Headers.Get("Content-Range")),
+				Input: map[string]interface{}{"size": size, "range": hdr, "request": "GET /rng/o" + strconv.Itoa(size)}, Impl: fmt.Sprintf("%d err=%v", rsp.Status, rsp.Err)})
+			if !g.Alive() {
+				return fmt.Errorf("gateway died on GET %q", hdr)
+			}
+			continue
 		}
 		obj := objs[size]
 		off, blen := 0, len(rsp.Body)
